@@ -86,6 +86,7 @@ static void op_inp_raw(int argc, char **argv)
   (void)argc; size_t n = unhexs(argv[1], sbuf, sizeof sbuf);
   mpz_t x; mpz_init_set_ui(x, 77); FILE *fp = open_prefix(sbuf, n);
   size_t r = mpz_inp_raw(x, fp); outul(r); if (r) out_zv(x);
+  if (!z_wf(x)) outs("BADFORMAT");
   z_reuse(x); fclose(fp); mpz_clear(x);
 }
 /* io_rtrunc fn base x:bytes : for every k = 0..len the stream holds only the first k bytes: return value, value(s) */
